@@ -535,6 +535,13 @@ def _sx_call(o, name, *a, **k):
         elif any(isinstance(x, SymStr) or (isinstance(x, tuple) and any(isinstance(y, SymStr) for y in x))
                  for x in a):
             return getattr(unlift(o), name)(*a, **k)
+    elif isinstance(o, dict) and a and isinstance(a[0], tuple) and any(_sym(x) for x in a[0]) and name == 'get':
+        key = a[0]
+        for kk in o:
+            if isinstance(kk, tuple) and len(kk) == len(key):
+                if all(bool(x == y) if (_sym(x) or _sym(y)) else x == y for x, y in zip(key, kk)):
+                    return o[kk]
+        return a[1] if len(a) > 1 else None
     elif isinstance(o, dict) and a and _sym(a[0]):
         key = a[0]
         if name == 'get':
@@ -609,6 +616,51 @@ def _sx_urljoin(base, url, *a, **k):
     raise Unsupported('urljoin on symbolic URL with a non-empty base')
 
 
+class SymStringIO:
+    """minimal text stream over a SymStr (read / seek / tell / getvalue)"""
+
+    def __init__(self, value):
+        self._v = value
+        self._pos = 0
+
+    def read(self, n=-1):
+        if isinstance(n, (SymInt,)):
+            n = int(n)
+        if n is None or n < 0:
+            r = self._v[self._pos:]
+            self._pos = len(self._v)
+        else:
+            r = self._v[self._pos:self._pos + n]
+            self._pos = min(len(self._v), self._pos + n)
+        return r
+
+    def seek(self, pos, whence=0):
+        if isinstance(pos, SymInt):
+            pos = int(pos)
+        self._pos = max(0, min(len(self._v), pos if whence == 0 else self._pos + pos if whence == 1 else len(self._v) + pos))
+        return self._pos
+
+    def tell(self):
+        return self._pos
+
+    def getvalue(self):
+        return self._v
+
+
+class _IOFacade:
+    def __getattr__(self, name):
+        import io as _io
+        return getattr(_io, name)
+
+    def StringIO(self, *a, **k):
+        import io as _io
+        if a and isinstance(a[0], SymStr) and not a[0].is_concrete():
+            return SymStringIO(a[0])
+        if a and isinstance(a[0], SymStr):
+            return _io.StringIO(a[0].concrete(), *a[1:], **k)
+        return _io.StringIO(*a, **k)
+
+
 def _sx_not(x):
     return sym_not(x) if isinstance(x, SymBool) else (not x)
 
@@ -618,14 +670,14 @@ HELPERS = {
     '_sx_isinstance': _sx_isinstance, '_sx_str': _sx_str, '_sx_int': _sx_int,
     '_sx_float': _sx_float, '_sx_chr': _sx_chr, '_sx_ord': _sx_ord, '_sx_hex': _sx_hex,
     '_sx_repr': _sx_repr, '_sx_mod': _sx_mod, '_sx_fmt': _sx_fmt, '_sx_call': _sx_call,
-    '_sx_re': symre.re_facade, '_sx_bool': _sx_bool, '_sx_urljoin': _sx_urljoin,
+    '_sx_re': symre.re_facade, '_sx_bool': _sx_bool, '_sx_urljoin': _sx_urljoin, '_sx_io': _IOFacade(),
 }
 
 from . import pycodecs as _pycodecs  # noqa: E402
 HELPERS['_sx_codecs'] = _pycodecs.codecs_facade
 
 # modules may register further facades (e.g. codecs) here: name -> object
-MODULE_FACADES = {'re': '_sx_re', 'codecs': '_sx_codecs'}
+MODULE_FACADES = {'re': '_sx_re', 'codecs': '_sx_codecs', 'io': '_sx_io'}
 
 
 # ---------------------------------------------------------------------- AST transformer
@@ -694,6 +746,12 @@ class Lifter(ast.NodeTransformer):
                            args=[f.value, ast.Constant(value=f.attr)] + node.args,
                            keywords=node.keywords)
             return ast.fix_missing_locations(ast.copy_location(new, node))
+        return node
+
+    def visit_Name(self, node):
+        # function-valued builtins passed around as values, e.g. map(ord, ...)
+        if isinstance(node.ctx, ast.Load) and node.id in ('ord', 'chr', 'hex'):
+            return ast.copy_location(ast.Name(id=_BUILTIN_MAP[node.id], ctx=ast.Load()), node)
         return node
 
     def visit_Import(self, node):
